@@ -22,6 +22,7 @@ type Profile struct {
 	Directives  bool
 	Messages    bool
 	Custom      bool // functions and print directives registered by the application (verifFn, verifBang)
+	RawBytes    bool // template text with bytes that are not valid UTF-8 (a file in a legacy 8-bit encoding)
 	CustomAlias bool // the application also registered its string function under a second name (aTag)
 }
 
@@ -132,7 +133,7 @@ func (g *G) Weighted(ws ...int) int {
 var (
 	asciiWords = []string{"", "a", "b", "abc", "hello world", "x y", "Zed", "0", "42", "true", "null", "a-b_c", "end."}
 	htmlWords  = []string{"<", ">", "&", "\"", "'", "<b>", "a&b", "</script>", "&amp;", "&lt;", "x<y>z", "it's", "\"q\"", "<a href='x'>"}
-	uniWords   = []string{"é", "日本", "ü ö", "π≈3", "𝄞", "a b", " ", "naïve", "上", "不三", "a†b", "č", "x\u2009y", "Ġ", "😀x"}
+	uniWords   = []string{"é", "日本", "ü ö", "π≈3", "𝄞", "a b", " ", "naïve", "上", "不三", "a†b", "č", "x\u2009y", "Ġ", "😀x", "a\ufeffb", "\ufeff"}
 	ctlWords   = []string{"a\nb", "a\tb", "\r\n", "x\\y", "back\\slash", "tab\t", "C:\\", "\\", "end\\\\", "'\\", "\\'"}
 )
 
@@ -437,6 +438,8 @@ func (g *G) literal(t *Ty) *Expr {
 			e.Esc = 1
 		} else if g.Chance(10) {
 			e.Esc = 2
+		} else if g.Chance(10) {
+			e.Esc = 3
 		}
 	}
 	return e
